@@ -21,7 +21,6 @@ L1Accept(Code(_), c, t, S) == c = Code(StepOf(t, S)) \/ c = Code(StepOf(t, S) - 
 L2Verify(Code(_), c, t, S) ==
   LET counter == t \div S
   IN  Code(counter) = c \/ Code(counter - 1) = c
-\* TotpAlgo::digest copies the secret into a block-sized HMAC key and fails (InvalidKeyError) when the
-\* secret is longer than the block; verify maps every error to "not accepted".
-L2VerifyKey(Code(_), c, t, S, klen, block) == klen <= block /\ L2Verify(Code, c, t, S)
+\* (Until commit 01e16a2 TotpAlgo::digest refused secrets longer than the HMAC block; it now keys
+\* HMAC as RFC 2104 does, so the secret's length plays no role in the window decision.)
 =============================================================================
